@@ -67,16 +67,16 @@ class State:
 
 def semr(S, x, which='sem'):
     arr = getattr(S, which)
-    return If(x > 0, arr[x], Not(arr[-x]))
+    return If(x > 0, arr[absz(x)], Not(arr[absz(x)]))
 
 
 def qexr(S, x):
     """existential closure read through a signed reference: QEx(-x) = not qfa[x]"""
-    return If(x > 0, S.qex[x], Not(S.qfa[-x]))
+    return If(x > 0, S.qex[absz(x)], Not(S.qfa[absz(x)]))
 
 
 def qfar(S, x):
-    return If(x > 0, S.qfa[x], Not(S.qex[-x]))
+    return If(x > 0, S.qfa[absz(x)], Not(S.qex[absz(x)]))
 
 
 def isref(S, x):
@@ -128,7 +128,7 @@ def WF(S, uses=None):
                                                        S.ref[u] == S.indeg[u] + S.ext[u])), patterns=[S.dom[u]])
     if allf or 'cache' in uses:
         c['W7-cache'] = ForAll([t], Implies(S.ch[t], And(
-            isref(S, Fork.l(t)), isref(S, Fork.lo(t)), isref(S, Fork.hi(t)), isref(S, S.cv[t]),
+            isref(S, Fork.l(t)), absz(Fork.l(t)) > 1, isref(S, Fork.lo(t)), isref(S, Fork.hi(t)), isref(S, S.cv[t]),
             semr(S, S.cv[t]) == If(semr(S, Fork.l(t)), semr(S, Fork.lo(t)), semr(S, Fork.hi(t))),
             lv(S, S.cv[t]) >= min2(lv(S, Fork.l(t)), min2(lv(S, Fork.lo(t)), lv(S, Fork.hi(t)))))),
             patterns=[S.ch[t]])
